@@ -19,7 +19,7 @@ P = {
          "Decided structurally: target and converters execute only behind nil-error checks of option building, graph building and resolution; pruned requirements always yield the dedicated error; the executor's last-resort guard; every return of Call is an error Result on a non-nil-error branch or exactly the executor's Result after resolution (no memoised shortcut past resolution); edge rules join only label-compatible vertices (an unsatisfiable target cannot look satisfiable through a wrong edge); cyclic converter dependencies cannot recurse unboundedly. Not decided: that pruning computes exactly the least fixpoint of derivable values.",
          "Trusted: go/ssa, reflect.Value.Call returns what the function returned.", "§4 ERRFLOW/UNSAT/TERM/EDGE/EXEC-X8, §5 C02"),
  "C03": ("static analysis: abstract cost model (Bellman–Ford lower bound over the extracted edge-weight table) plus direct-use rule recognition",
-         "Decided: an exactly matching supplied named value is used directly (direct-use rule in the resolver) or every >=2-edge path is strictly dearer than the direct input edge; for type-only parameters every path through a function vertex costs more than the direct typed route; inputs overwrite the coinciding requirement vertex and hang off the root; path selection uses Dijkstra from the root on the reverse of the same graph; every supplied/generated converter is registered; every vertex added to a call's graph is freshly allocated; removing a vertex leaves no dangling in-edge. Not decided: which of two equal-cost exact type-only candidates is taken.",
+         "Decided: an exactly matching supplied named value is used directly (direct-use rule in the resolver) or every >=2-edge path is strictly dearer than the direct input edge; for type-only parameters every path through a function vertex costs more than the direct typed route; inputs overwrite the coinciding requirement vertex and hang off the root; path selection uses Dijkstra from the root on the reverse of the same graph; every supplied/generated converter is registered; every vertex added to a call's graph is freshly allocated; removing a vertex leaves no dangling in-edge; a requirement that needs no path is bound to its value before anything can overwrite the shared vertex; a nil value in a multi-value option skips only itself. Not decided: which of two equal-cost exact type-only candidates is taken.",
          "Sound lower-bound argument: every tentative distance Dijkstra holds is the length of a real path. Trusted: go/ssa constant folding of weights.", "§4 PRIO/INPUT/EDGE-V/MIRROR-REMOVE, §5 C03"),
  "C04": ("static analysis: Result typestate (Err()==nil dominance), error-identity taint rule, final-error predicate agreement",
          "Decided: after each converter execution the result's error is checked and returned unchanged before anything else runs; error values on the chain are only returned/stored/boxed, never wrapped; the target executes only on the nil branch; the final-error predicate is type identity at the last position everywhere and Result.Err reports the final output as the error under exactly the reviewed conditions (a typed-nil error is still an error); no per-call cache of converter results.", "Trusted: reflect.Value.Call, go/ssa.", "§4 ERRFLOW/ERRPRED/EXEC-X7, §5 C04"),
@@ -29,7 +29,7 @@ P = {
          "Decided: every explicit panic reachable from Call/Convert/Redefine is discharged mechanically or by a reviewed invariant table; reflect.Value methods on API inputs are dominated by IsValid; nil options are rejected; slices indexed by struct-field ordinal are sized by the value list; dynamic struct field names are unique; every recursive SCC carries a visited/in-progress witness and every loop is regular or in the reviewed table; Dijkstra's predecessor map is only written together with a lowered distance on unsettled vertices (acyclic walk); vertex values are assigned only under validity/assignability guards; Remove leaves no dangling edge. Not decided: panics raised inside reflect for other reasons, exhaustion by sheer size.",
          "Trusted: reflect, hclog; reviewed invariant tables are listed in the checker source with one reason each.", "§4 PANIC/REFLVALID/NILOPT/PACK/STRUCTOF/TERM, §5 C06"),
  "C07": ("static analysis: weight-order and discount-loop rules over the extracted edge table",
-         "Decided clauses: the matching-name discount is negative and strictly below every other in-edge weight, applied only to in-edges of same-named value vertices, on a private copy of the graph, and the named requirement edge is cheaper than the typed route; converter results are not cached across positions of one call. Not decided: optimality of Dijkstra under a negative edge, tie-breaking.", "Trusted: go/ssa constant folding.", "§4 PRIO-W/D/P, §5 C07"),
+         "Decided clauses: the matching-name discount is negative and strictly below every other in-edge weight, applied only to in-edges of same-named value vertices, on a private copy of the graph, and the named requirement edge is cheaper than the typed route; converter results are not cached across positions of one call; requirements that already carry a value are bound when classified (not re-read after sibling paths ran). Not decided: optimality of Dijkstra under a negative edge, tie-breaking.", "Trusted: go/ssa constant folding.", "§4 PRIO-W/D/P, §5 C07"),
  "C08": ("static analysis: must-pass-edge gating of redefine root edges, input-set provenance, exclusion key-space agreement, output-filter error flow",
          "Decided clauses: the redefine-only root edge is gated by the input filter; only path inputs are recorded in the input set; struct fields are appended only for entries not supplied; rejected outputs return an error before planning; the generated function forwards options and declared inputs to Call. Not decided: that the planning run visits exactly the inputs a real call would use; result equality.", "Known finding D12 (typed supplied inputs use a different hash namespace).", "§4 REDEF, §5 C08"),
  "C09": ("static analysis: who-may-call audit of reflect.Value.Call, must-pass zeroing loop before the planning resolver call, whole-program shared-write audit",
@@ -49,7 +49,7 @@ P = {
  "C16": ("static analysis: lower-casing dataflow, option-order recogniser, nil-option and nil-value guards",
          "Decided: keys of the builder's named maps are ToLower results; defaults precede call options in the slice handed to the applier which iterates in increasing order; nil options return an error; nil values are ignored; accumulation is plain map assignment; an invalid (nil) value in a multi-value option skips only itself. Not decided: permutation invariance beyond map semantics and C03.", "Trusted: Go map semantics.", "§4 LOWER/OPTORDER/NILOPT, §5 C16"),
  "C17": ("static analysis: final-error predicate agreement, Result literal discipline, Len/Out arithmetic",
-         "Decided: every comparison against the error type is type identity at index len-1; every Result construction sets exactly one of out/buildErr; Len = len(out) minus one iff hasError; Out(i) indexes out with i; Err reports the final output under exactly the reviewed conditions; Call returns the executor's Result unmodified.", "Trusted: reflect.", "§4 ERRPRED/RESULTLIT/LEN, §5 C17"),
+         "Decided: every comparison against the error type is type identity at index len-1; every Result construction sets exactly one of out/buildErr; Len = len(out) minus one iff hasError; Out(i) indexes out with i; Err reports the final output under exactly the reviewed conditions; Call returns the executor's Result unmodified; a memoised Result is exactly the Result of the function's own first execution and cannot be written through the planner's copy.", "Trusted: reflect.", "§4 ERRPRED/RESULTLIT/LEN, §5 C17"),
  "C18": ("static analysis: heap-position bookkeeping and relaxation pairing rules on Dijkstra",
          "Decided clauses: Swap maintains index==position; every distance store is followed by a heap repair before the next pop and paired with the predecessor store; the stored distance is u.distance+weight guarded by a strict/non-strict less and by 'not visited'; source initialised to 0 before heap.Init; results read from the items; path reconstruction follows the predecessor map; queue items are allocated per search and a predecessor is written only together with a strictly lowered distance; read-only graph functions mutate nothing. NOT decided: exactness on all graphs.", "Trusted: container/heap.", "§4 HEAP/PURITY, §5 C18"),
  "C19": ("static analysis: paired-update (mirror) rules, copy freshness, purity of read-only methods, hash-key discipline",
